@@ -1,6 +1,30 @@
 """Level text / notes per property for MANIFEST.json."""
 KERNEL = "Lean 4.33 kernel + axioms {propext, Classical.choice, Quot.sound}; constants translator; correspondence harness/driver (differential testing, not proof); "
 TEXT = {
+    "C05": {
+        "level": "Kernel-checked: for every accepted document the hashed bytes are raw_info of the very top-level dictionary (the first that parses) "
+                 "from which the other fields are read (T1); on every well-formed document - any number of complete values in front, the dictionary written "
+                 "as any sequence of entries in any key order, keys and strings with any legal length prefix (leading zeros), nested dictionaries with keys "
+                 "spelled 'info', repeated keys, arbitrary data behind - raw_info returns exactly the value text of the (last) entry whose key is 'info' "
+                 "(T2, by induction over the concrete syntax Txt and over the entry list); hence other keys, their order, nesting, encodings and "
+                 "trailing data do not change the hashed bytes (T3). SHA-1 is outside the model: the check compares SHA-1 of the model span with "
+                 "Metainfo::info_hash() and with the span recorded by the document generator on every case.",
+        "note": KERNEL + "SHA-1 (sha1_smol) is trusted and cross-checked against the driver's own SHA-1 on every case; documents ending inside a container "
+                "(recorded finding C16-F1) have no terminated info value - the span then runs to the end of the data.",
+        "technique": "Lean 4 proof (inductive concrete syntax; skip_value/raw_info consume exactly one value text, by induction) + differential correspondence with generator-known spans",
+    },
+    "C17": {
+        "level": "Kernel-checked: every accepted metainfo's announce, name, piece length, ordered piece hashes (20-byte chunks, concatenating to the "
+                 "'pieces' string) and ordered file list are what a top-level dictionary of the decoded document says, with 0 < piece length, total length "
+                 "< 2^64, UTF-8 fields (T2); hence total_length() does not overflow, piece_length(i) is defined for every valid index and equals the C03 "
+                 "geometry, file_piece_ranges() is defined - accessor arithmetic modelled with an explicit panic outcome (T3); for every name, tracker "
+                 "URL and content the document create_file writes parses back to that name, length, piece length and the SHA-1 of each chunk in order, "
+                 "sha1 an arbitrary 20-byte function (T4, via the C15 round trip). Totality (no panic on any byte string) is what the correspondence "
+                 "check observes on the real parser; the model is a total function whose decoder recursion has proved-sufficient fuel (C16).",
+        "note": KERNEL + "modelled: String::from_utf8 as the Unicode table 3-7 validator (tied by non-UTF-8 cases); u64/usize arithmetic of the accessors "
+                "with debug-profile overflow = panic; std::fs in create_file is exercised for real (temporary directory), not modelled.",
+        "technique": "Lean 4 proof (field-by-field refinement to dictionary lookups; arithmetic side conditions; encode/decode round trip) + differential correspondence incl. real create_file",
+    },
     "C03": {
         "level": "Kernel-checked for every piece length > 0, every list of file lengths (zero-length files, files inside one piece, any alignment) and every "
                  "content: the bytes extract_files writes for each file are exactly the slice of the concatenated content at the file's offset, in its declared "
